@@ -149,90 +149,137 @@ func uniq(in []string) []string {
 	return out
 }
 
-// extractLayout lists the byte-level accesses of fn. ok=false when a slice position could not be resolved.
+// extractLayout lists the byte-level accesses of fn and of the module functions it calls (call-string cloned), so that
+// extracting a helper from a marshal function does not change the result.
 func extractLayout(fn *ssa.Function, sym func(v ssa.Value) string) (rows []layoutRow, undecided []string) {
-	// counted loop
-	var loopN int64
 	loopBlocks := map[*ssa.BasicBlock]bool{}
-	for _, b := range fn.Blocks {
-		if inCycle(b) {
-			loopBlocks[b] = true
+	loopN := map[*ssa.Function]int64{}
+	prep := map[*ssa.Function]bool{}
+	env := &SliceEnv{Lin: &LinEnv{Sym: sym}, RootLen: map[ssa.Value]*Lin{}}
+	env.InLoop = func(in ssa.Instruction) bool { return loopBlocks[in.Block()] }
+	env.LoopNOf = func(ph *ssa.Phi) int64 { return loopN[ph.Parent()] }
+	prepare := func(f *ssa.Function) {
+		if prep[f] {
+			return
 		}
-		for k := range b.Succs {
-			c := edgeCond(b, k)
-			if c != nil && c.Op == token.LSS && c.Pos {
-				if _, ok := strip(c.X).(*ssa.Phi); ok {
-					if n, ok := constInt(c.Y); ok {
-						loopN = n
+		prep[f] = true
+		for _, b := range f.Blocks {
+			if inCycle(b) {
+				loopBlocks[b] = true
+			}
+			for k := range b.Succs {
+				c := edgeCond(b, k)
+				if c != nil && c.Op == token.LSS && c.Pos {
+					if _, ok := strip(c.X).(*ssa.Phi); ok {
+						if n, ok := constInt(c.Y); ok {
+							loopN[f] = n
+						}
 					}
 				}
 			}
 		}
-	}
-	env := &SliceEnv{Lin: &LinEnv{Sym: sym}, RootLen: map[ssa.Value]*Lin{}, LoopN: loopN,
-		InLoop: func(in ssa.Instruction) bool { return loopBlocks[in.Block()] }}
-	instrsOf(fn, func(in ssa.Instruction) {
-		switch x := in.(type) {
-		case *ssa.Alloc:
-			if arr, ok := derefType(x.Type()).Underlying().(*types.Array); ok {
-				env.RootLen[x] = linConst(arr.Len())
+		instrsOf(f, func(in ssa.Instruction) {
+			switch x := in.(type) {
+			case *ssa.Alloc:
+				if arr, ok := derefType(x.Type()).Underlying().(*types.Array); ok {
+					env.RootLen[x] = linConst(arr.Len())
+				}
+			case *ssa.FieldAddr:
+				if arr, ok := derefType(x.Type()).Underlying().(*types.Array); ok {
+					env.RootLen[x] = linConst(arr.Len())
+				}
 			}
-		case *ssa.MakeSlice:
-			if l := env.Lin.Eval(x.Len); l != nil {
-				env.RootLen[x] = l
+		})
+	}
+	w := &IPWalk{P: nil, MaxDepth: 4}
+	root := &Ctx{Fn: fn}
+	w.Run(root, nil)
+	var nodes []Node
+	for n := range w.Reached {
+		nodes = append(nodes, n)
+	}
+	sort.Slice(nodes, func(i, j int) bool { return nodes[i].In.Pos() < nodes[j].In.Pos() })
+	for _, n := range nodes {
+		prepare(n.Ctx.Fn)
+		if ms, ok := n.In.(*ssa.MakeSlice); ok {
+			if l := env.Lin.inCtx(n.Ctx).Eval(ms.Len); l != nil {
+				env.RootLen[ms] = l
 			}
 		}
-	})
-	add := func(kind string, width int, sl ssa.Value, what string, in ssa.Instruction) {
-		ref := env.Resolve(sl, in)
+	}
+	seen := map[string]bool{}
+	add := func(ctx *Ctx, kind string, width int, sl ssa.Value, what string, in ssa.Instruction) {
+		ref := env.Resolve(ctx, sl, in)
 		if ref == nil {
 			undecided = append(undecided, fmt.Sprintf("%s%d: cannot resolve slice %s", kind, width, valString(sl)))
 			return
 		}
-		rows = append(rows, layoutRow{Kind: kind, Width: width, Range: ref.Range(), What: what, Pos: in.Pos(), InLp: loopBlocks[in.Block()]})
+		if width > 0 {
+			ref.End = ref.Off.add(linConst(int64(width/8)), 1)
+		} else if ref.End == nil {
+			if rl, ok := env.RootLen[ref.Root]; ok {
+				ref.End = rl
+			}
+		}
+		row := layoutRow{Kind: kind, Width: width, Range: ref.Range(), What: what, Pos: in.Pos(), InLp: loopBlocks[in.Block()]}
+		if !seen[row.String()] {
+			seen[row.String()] = true
+			rows = append(rows, row)
+		}
 	}
-	instrsOf(fn, func(in ssa.Instruction) {
+	for _, n := range nodes {
+		in := n.In
 		if st, ok := in.(*ssa.Store); ok {
 			if _, isSl := strip(st.Val).(*ssa.Slice); isSl {
 				if fn := fieldName(st.Addr); fn != "" {
-					add("field", 0, st.Val, fn, st)
+					add(n.Ctx, "field", 0, st.Val, fn, st)
 				}
 			}
-			return
+			continue
 		}
 		c, ok := in.(*ssa.Call)
 		if !ok {
-			return
+			continue
 		}
 		k := calleeKey(&c.Call)
 		switch {
 		case strings.HasPrefix(k, "(encoding/binary.littleEndian).PutUint") || strings.HasPrefix(k, "(encoding/binary.bigEndian).PutUint"):
-			w := widthOf(k)
 			kind := "put"
 			if strings.Contains(k, "bigEndian") {
 				kind = "putBE"
 			}
-			add(kind, w, c.Call.Args[1], describeValue(c.Call.Args[2]), c)
+			add(n.Ctx, kind, widthOf(k), c.Call.Args[1], describeValueCtx(n.Ctx, c.Call.Args[2]), c)
 		case strings.HasPrefix(k, "(encoding/binary.littleEndian).Uint") || strings.HasPrefix(k, "(encoding/binary.bigEndian).Uint"):
-			w := widthOf(k)
 			kind := "get"
 			if strings.Contains(k, "bigEndian") {
 				kind = "getBE"
 			}
-			add(kind, w, c.Call.Args[1], describeUse(c), c)
+			add(n.Ctx, kind, widthOf(k), c.Call.Args[1], describeUse(c), c)
 		case k == "hash/crc32.ChecksumIEEE":
-			add("crc", 0, c.Call.Args[0], describeUse(c), c)
+			add(n.Ctx, "crc", 0, c.Call.Args[0], describeUse(c), c)
 		case k == "bytes.Equal":
-			add("equal", 0, c.Call.Args[0], describeValue(c.Call.Args[1]), c)
+			add(n.Ctx, "equal", 0, c.Call.Args[0], describeValue(c.Call.Args[1]), c)
 		case k == "io.ReadFull":
-			add("read-into", 0, c.Call.Args[1], "", c)
+			add(n.Ctx, "read-into", 0, c.Call.Args[1], "", c)
 		default:
 			if b, ok := c.Call.Value.(*ssa.Builtin); ok && b.Name() == "copy" {
-				add("copy-to", 0, c.Call.Args[0], describeValue(c.Call.Args[1]), c)
+				add(n.Ctx, "copy-to", 0, c.Call.Args[0], describeValueCtx(n.Ctx, c.Call.Args[1]), c)
 			}
 		}
-	})
+	}
 	return rows, undecided
+}
+
+// describeValueCtx is describeValue with parameters replaced by the caller's argument.
+func describeValueCtx(ctx *Ctx, v ssa.Value) string {
+	if pa, ok := strip(v).(*ssa.Parameter); ok && ctx != nil && ctx.Parent != nil && ctx.Site != nil && ctx.Fn == pa.Parent() {
+		cc := callOf(ctx.Site)
+		idx := paramIndex(pa)
+		if !cc.IsInvoke() && idx >= 0 && idx < len(cc.Args) {
+			return describeValueCtx(ctx.Parent, cc.Args[idx])
+		}
+	}
+	return describeValue(v)
 }
 
 func widthOf(k string) int {
